@@ -1413,7 +1413,10 @@ func (m *RadioTap) DecodeFromBytes(data []byte, df gopacket.DecodeFeedback) erro
 			headlen += 2
 		}
 		if headlen%4 == 2 {
-			payload = append(payload[:headlen], payload[headlen+2:len(payload)]...)
+			// build the unpadded frame in fresh memory: data belongs to the caller and must not be written to
+			unpadded := make([]byte, 0, len(payload)-2)
+			unpadded = append(unpadded, payload[:headlen]...)
+			payload = append(unpadded, payload[headlen+2:]...)
 		}
 	}
 
